@@ -95,6 +95,17 @@ type c6Peer struct {
 
 func (*c6Peer) M1() {}
 
+// c6Neutral holds the same points as c6Peer without providing any of their types.
+type c6Neutral struct {
+	Nm      string
+	Peers   []scen.I1 `wire:",required=false"`
+	Sibs    []*c6Peer `wire:",required=false"`
+	Next    *c6Peer   `wire:",required=false"`
+	Partner scen.I1   `wire:",required=false"`
+}
+
+func (n *c6Neutral) Naming() string { return n.Nm }
+
 // c6Z collects zero-size components (all of them live at one address, yet each is a component).
 type c6Z struct {
 	All []scen.IZ `wire:",required=false"`
@@ -145,6 +156,7 @@ type c06Case struct {
 	Mode    int         `json:"mode,omitempty"`
 	Bound   int         `json:"bound,omitempty"`
 	Choices []int       `json:"choices,omitempty"`
+	Neutral int         `json:"neutral_mask,omitempty"`   // family "peers": holders of the same points that provide nothing (bit 0: named to sort first, bit 1: last)
 	Peers   []string    `json:"peer_names,omitempty"`     // family "peers": names of the c6Peer holders ("" = default name)
 	Zero    int         `json:"zero_size_mask,omitempty"` // family "zero-size": which of Z1,Z2,Z3 are registered
 	Sealed  int         `json:"sealed_mask,omitempty"`    // family "sealed": which of TS1,TS2 (implementers of a sealed interface) are registered
@@ -224,8 +236,10 @@ func c06Gen(c *core.Ctx) func(yield func(c06Case) bool) {
 		for _, peers := range [][]string{{"p0"}, {""}, {"p0", "p1"}, {"", "p1"}, {"p0", "p1", "p2"}, {"p0", "", "p2"}} {
 			for _, others := range [][]scen.Inst{nil, {{Typ: "TA", Name: "tan"}}, {{Typ: "TB"}}, {{Typ: "TA"}, {Typ: "TB", Name: "tbn"}, {Typ: "TC"}}} {
 				for _, desc := range []bool{false, true} {
-					if ok = yield(c06Case{Pop: others, Peers: peers, Desc: desc}); !ok {
-						return
+					for neutral := 0; neutral < 4; neutral++ {
+						if ok = yield(c06Case{Pop: others, Peers: peers, Desc: desc, Neutral: neutral}); !ok {
+							return
+						}
 					}
 				}
 			}
@@ -321,6 +335,15 @@ func c06Run(c *core.Ctx) {
 					user[pn] = true
 				}
 			}
+			var neutrals []*c6Neutral
+			for bit, nm := range []string{"0-neutral", "zz-neutral"} {
+				if cs.Neutral>>bit&1 == 1 {
+					nh := &c6Neutral{Nm: nm}
+					neutrals = append(neutrals, nh)
+					comps = append(comps, nh)
+					user[nm] = true
+				}
+			}
 			var zh *c6Z
 			var zwant []string
 			if cs.Zero != 0 {
@@ -379,7 +402,7 @@ func c06Run(c *core.Ctx) {
 			cc := cs
 			cc.Choices = ch.Choices()
 			key := func(kind string) string {
-				return "C06/" + kind + "/" + core.Hash(cs.Pop, cs.Kind, cs.Desc, cs.Peers, cs.Zero, cs.Sealed, cc.Choices)
+				return "C06/" + kind + "/" + core.Hash(cs.Pop, cs.Kind, cs.Desc, cs.Peers, cs.Zero, cs.Sealed, cs.Neutral, cc.Choices)
 			}
 			adm := func(kind string) []string {
 				pred := c6Pred(kind)
@@ -482,6 +505,19 @@ func c06Run(c *core.Ctx) {
 					sort.Strings(otherPeers)
 					if !(slice(h.Id+".Peers", scen.IdsOf(h.Peers), wantI1) && slice(h.Id+".Sibs", scen.IdsOf(h.Sibs), otherPeers) &&
 						single(h.Id+".Next", h.Next, otherPeers) && single(h.Id+".Partner", h.Partner, wantI1)) {
+						return
+					}
+				}
+				var allPeers []string
+				for _, q := range peers {
+					allPeers = append(allPeers, q.Id)
+				}
+				allI1 := append(append([]string{}, i1...), allPeers...)
+				sort.Strings(allPeers)
+				sort.Strings(allI1)
+				for _, h := range neutrals {
+					if !(slice(h.Nm+".Peers", scen.IdsOf(h.Peers), allI1) && slice(h.Nm+".Sibs", scen.IdsOf(h.Sibs), allPeers) &&
+						single(h.Nm+".Next", h.Next, allPeers) && single(h.Nm+".Partner", h.Partner, allI1)) {
 						return
 					}
 				}
